@@ -37,7 +37,9 @@ or whose lease may have been running out at the kill. Any other over-capacity im
 
     python3 -m lib.killtie [--tier quick|thorough] [--seed N] [--replay FILE [--runs N]] [-v]
     killtie.run_property(ctx, tier=None)      from checks/c09.py (coverage under ctx.coverage["ties"]["T4-kill"])
-    killtie.replay(ctx, path)                 re-runs the scenario of a replay file several times
+    killtie.replay(ctx, path)                 re-runs the scenario of a replay file several times (killtie.is_kill_replay(path)
+                                              tells whether a replay file is one of this tie's)
+    python3 harness/e2e/c09/sensitivity.py    seeded defects in a scratch worktree (development tool, not used by the checks)
 VERIF_REPO selects the tree.
 """
 import json
@@ -733,7 +735,7 @@ def _run(ctx, tier, only, repeat, verbose, jobs):
         "kill_to_exit_us": dist([o["exit_us"] - o["kill_before_us"] for o, _, _ in judged if o.get("exit_us")]),
         "tmp_file_left_by_the_kill": sum(1 for o, _, _ in judged if (o.get("file") or {}).get("tmp_left")),
         "margin_us": margin_us(), "f_over_attribution_window_us": NEAR_US,
-        "jobs": jobs, "wall_s": round(wall, 1),
+        "jobs": jobs, "wall_s": round(wall, 1), "rule": RULE,
     })
     cov["evaluations"] = cov.get("evaluations", 0) + evals
     cov["distinct_nontrivial"] = cov.get("distinct_nontrivial", 0) + tie["distinct_images"]
@@ -749,7 +751,19 @@ def _run(ctx, tier, only, repeat, verbose, jobs):
     return dict(ok_build=True, judged=len(judged), failing=len(failing), unjudged=len(unjudged), judged_list=judged, fover=len(fover))
 
 
-def replay(ctx, path, runs=6):
+def is_kill_replay(path):
+    """True iff the file is a replay written by this tie (or a corpus file of kill scenarios)."""
+    try:
+        r = json.loads(Path(path).read_text())
+    except Exception:  # noqa
+        return False
+    if not isinstance(r, dict):
+        return False
+    sc = r.get("scenario") or ((r.get("scenarios") or [None])[0])
+    return r.get("kind") == "t4-kill-scenario" or (isinstance(sc, dict) and isinstance(sc.get("kill"), dict) and "mode" in sc)
+
+
+def replay(ctx, path, runs=12):
     """Re-runs the scenario of a replay file `runs` times on the current tree (the kill instant varies between runs)."""
     try:
         r = json.loads(Path(path).read_text())
@@ -782,7 +796,7 @@ def main(argv):
     ap.add_argument("--tier", default="quick", choices=["quick", "thorough"])
     ap.add_argument("--seed", type=int, default=int(os.environ.get("VERIF_SEED", "1")))
     ap.add_argument("--replay")
-    ap.add_argument("--runs", type=int, default=6)
+    ap.add_argument("--runs", type=int, default=12)
     ap.add_argument("--jobs", type=int)
     ap.add_argument("-v", "--verbose", action="store_true")
     a = ap.parse_args(argv)
